@@ -94,12 +94,21 @@ NODES = {
 }
 
 
+# every other scenario writes a declaration as TWO attributes of its kind on the node, the name
+# that matters in the later one (`the names listed by every skip::macros attribute of the node')
+TWICE = False
+
+
 def decl_attrs(d, inner=False):
     bang = "!" if inner else ""
     out = []
     if d in ("M", "MA"):
+        if TWICE:
+            out.append(f"#{bang}[rustfmt::skip::macros(zz_other)]")
         out.append(f"#{bang}[rustfmt::skip::macros(m)]")
     if d in ("A", "MA"):
+        if TWICE:
+            out.append(f"#{bang}[rustfmt::skip::attributes(zz_other)]")
         out.append(f"#{bang}[rustfmt::skip::attributes(a)]")
     return "\n".join(out) + ("\n" if out else "")
 
@@ -139,6 +148,8 @@ def wrap(c, d, i, inner):
 
 def render(sc):
     """-> (source, verbatim marker, list of sibling texts that must change)"""
+    global TWICE
+    TWICE = core.fnv(key_of(sc).encode()) % 2 == 1
     if sc["kind"] == "name":
         t = sc["target"]
         if t in ("mac_item", "mac_assoc", "mac_stmt"):
